@@ -296,6 +296,9 @@ def e_truncate(c):
             kw[k] = bool(c.rng.integers(0, 2))
     if kw.get('use_stab') and kw.get('orth') is False:
         kw.pop('use_stab')
+    if c.rng.random() < 0.06:
+        Y = c.own(c.tt_shape([int(c.rng.integers(16, 20))] * 3, int(c.rng.integers(16, 20))))     # unfoldings of ~300 x ~300
+        return Call('truncate', teneva.truncate, [Y], {'e': 1e-6, 'r': int(c.rng.integers(2, 20)), 'is_eigh': bool(c.rng.integers(0, 2))})
     return Call('truncate', teneva.truncate, [c.tt()], kw)
 
 
@@ -465,12 +468,22 @@ def _mat(c, m=None, n=None):
     return c.own(c.rng.standard_normal((m, n)))
 
 
+def _bigmat(c):
+    # a large matrix of low numerical rank plus noise (size-dependent code paths)
+    m, n = int(c.rng.integers(256, 330)), int(c.rng.integers(256, 330))
+    k = int(c.rng.integers(2, 12))
+    A = c.rng.standard_normal((m, k)) @ c.rng.standard_normal((k, n)) + 1e-3 * c.rng.standard_normal((m, n))
+    return c.own(A)
+
+
 @entry()
 def e_matrix_skeleton(c):
     kw = {}
     if c.rng.random() < 0.7:
         kw = {'e': float(_pick(c, [1e-10, 0.1])), 'r': int(c.rng.integers(1, 5)), 'rel': bool(c.rng.integers(0, 2)),
               'give_to': _pick(c, ['m', 'l', 'r'])}
+    if c.rng.random() < 0.12:
+        return Call('matrix_skeleton', teneva.matrix_skeleton, [_bigmat(c)], {'e': 1e-6, 'r': int(c.rng.integers(2, 30)), 'give_to': _pick(c, ['m', 'l', 'r'])})
     A = _mat(c)
     if c.rng.random() < 0.2:
         k = A.shape[0]
@@ -483,12 +496,16 @@ def e_matrix_skeleton(c):
 @entry()
 def e_matrix_svd(c):
     kw = {} if c.rng.random() < 0.4 else {'e': float(_pick(c, [1e-10, 0.1])), 'r': int(c.rng.integers(1, 5))}
+    if c.rng.random() < 0.1:
+        return Call('matrix_svd', teneva.matrix_svd, [_bigmat(c)], {'e': 1e-6, 'r': int(c.rng.integers(2, 30))})
     return Call('matrix_svd', teneva.matrix_svd, [_mat(c)], kw)
 
 
 @entry()
 def e_svd(c):
     kw = {} if c.rng.random() < 0.4 else {'e': float(_pick(c, [1e-10, 0.1])), 'r': int(c.rng.integers(1, 5))}
+    if c.rng.random() < 0.1:
+        return Call('svd', teneva.svd, [_bigmat(c)], {'e': 1e-6, 'r': int(c.rng.integers(2, 30))})
     return Call('svd', teneva.svd, [c.own(c.rng.standard_normal(c.n))], kw)
 
 
@@ -1059,7 +1076,7 @@ def e_als(c):
     if c.rng.random() < 0.3:
         kw['w'] = c.own(c.rng.uniform(0.5, 2.0, len(y)))
     if c.rng.random() < 0.5:
-        kw['lamb'] = float(_pick(c, [1e-3, 0.1, 1.0]))
+        kw['lamb'] = _pick(c, [1e-3, 0.1, 1.0, None])
     if c.rng.random() < 0.3:
         kw['I_vld'] = c.idx(5)
         kw['y_vld'] = c.own(c.rng.standard_normal(5) + 1)
@@ -1067,6 +1084,8 @@ def e_als(c):
             kw['e_vld'] = float(_pick(c, [1e-12, 10.0]))
     if c.rng.random() < 0.25 and len(c.n) >= 3:
         kw['r'] = int(c.rng.integers(3, 5))
+        if 'I_vld' in kw and c.rng.random() < 0.4:
+            kw['allow_swap'] = True        # documented as an experimental flag; needs r and a validation set
         kw.update(r_add=int(_pick(c, [1, 10000])), e_adap=1e-3)   # use_stab=True raises for every input on the pinned tree (orthogonalize returns a pair)
     if c.rng.random() < 0.2:
         kw['allow_skip_cores'] = True
@@ -1103,7 +1122,7 @@ def e_als_func(c):
     if c.rng.random() < 0.4:
         kw.update(a=-1.5, b=1.5)
     if c.rng.random() < 0.4:
-        kw['lamb'] = float(_pick(c, [1e-3, 0.1]))
+        kw['lamb'] = _pick(c, [1e-3, 0.1, None])
     if c.rng.random() < 0.3:
         kw['X_vld'] = c.own(c.rng.uniform(-1, 1, (5, d)))
         kw['y_vld'] = c.own(c.rng.standard_normal(5) + 1)
